@@ -65,7 +65,56 @@ class CarryAnalysis:
                                 raise AnalysisError(f"{self.fi.qualname}: summation slice width not constant")
                             self.acc, self.word_bits = s.target.id, 8 * width
                             return n
-        raise AnalysisError(f"{self.fi.qualname}: additive checksum loop (acc += int.from_bytes(data[i:i+w])) not found")
+        # `acc = sum(<word> for i in range(0, len(data), w))`
+        for n in ast.walk(self.fi.node):
+            if isinstance(n, (ast.Assign, ast.AnnAssign)) and n.value is not None and isinstance(n.value, ast.Call) \
+                    and isinstance(n.value.func, ast.Name) and n.value.func.id == "sum" and n.value.args and isinstance(n.value.args[0], ast.GeneratorExp):
+                t = n.targets[0] if isinstance(n, ast.Assign) else n.target
+                if not isinstance(t, ast.Name):
+                    continue
+                ge = n.value.args[0]
+                elt = ge.elt
+                word_hi = None
+                if isinstance(elt, ast.Call) and ast.unparse(elt.func) == "int.from_bytes" and elt.args and isinstance(elt.args[0], ast.Subscript) \
+                        and isinstance(elt.args[0].slice, ast.Slice):
+                    sl = elt.args[0].slice
+                    if sl.lower is not None and isinstance(sl.upper, ast.BinOp) and isinstance(sl.upper.op, ast.Add) \
+                            and ast.dump(sl.upper.left) == ast.dump(sl.lower) and isinstance(sl.upper.right, ast.Constant):
+                        word_hi = (1 << (8 * sl.upper.right.value)) - 1
+                else:
+                    # a word assembled from single octets: every `x[...]` is an octet
+                    class _Oct(dict):
+                        pass
+                    try:
+                        word_hi = self.iv_octets(elt).hi
+                    except AnalysisError:
+                        word_hi = None
+                if word_hi is None or word_hi == INF:
+                    continue
+                self.acc = t.id
+                self.word_bits = int(word_hi).bit_length()
+                self.sum_stmt = n
+                return n
+        raise AnalysisError(f"{self.fi.qualname}: additive checksum accumulator (acc += int.from_bytes(data[i:i+w]) in a loop, or acc = sum(<word> for ...)) not found")
+
+    def iv_octets(self, e) -> "Iv":
+        """interval of an expression over single octets x[i] (each in [0, 255])"""
+        if isinstance(e, ast.Subscript) and not isinstance(e.slice, ast.Slice):
+            return Iv(0, 255)
+        c = self.const(e)
+        if c is not None:
+            return Iv(c, c)
+        if isinstance(e, ast.BinOp):
+            l, r = self.iv_octets(e.left), self.iv_octets(e.right)
+            if isinstance(e.op, ast.LShift) and l.lo >= 0 and r.lo == r.hi:
+                return Iv(l.lo << int(r.lo), int(l.hi) << int(r.lo))
+            if isinstance(e.op, ast.Mult) and l.lo >= 0 and r.lo >= 0:
+                return Iv(l.lo * r.lo, l.hi * r.hi)
+            if isinstance(e.op, ast.Add):
+                return Iv(l.lo + r.lo, l.hi + r.hi)
+            if isinstance(e.op, (ast.BitOr, ast.BitXor)) and l.lo >= 0 and r.lo >= 0:
+                return Iv(0, (1 << max(int(l.hi).bit_length(), int(r.hi).bit_length())) - 1)
+        raise AnalysisError(f"{self.fi.qualname}:{getattr(e, 'lineno', 0)}: word expression not analysable")
 
     def const(self, e):
         if isinstance(e, ast.Constant) and isinstance(e.value, int) and not isinstance(e.value, bool):
@@ -121,6 +170,20 @@ class CarryAnalysis:
                         return Iv(int(a.lo) & m, int(a.hi) & m)    # same upper part: the low bits run through a sub-range
                     return Iv(0, min(a.hi, m) if a.lo >= 0 else m)
                 return Iv(max(0, m - a.hi) if fits else 0, m - max(a.lo, 0) if fits else m)
+            if isinstance(e.op, ast.BitXor):
+                m = self.const(e.right)
+                operand = e.left
+                if m is None:
+                    m = self.const(e.left)
+                    operand = e.right
+                k = is_mask(m)
+                if k is None:
+                    raise AnalysisError(f"{self.fi.qualname}:{e.lineno}: `^` with a non-mask operand")
+                a = self.iv(operand, env)
+                fits = a.lo >= 0 and a.hi <= m
+                self.events.append((e.lineno, ast.unparse(e), a, fits, "operand fits the mask (x ^ m = m - x: the complement)" if fits else
+                                    f"the operand ranges over {a} but the complement mask has {k} bits: the bits above it survive un-complemented and overflow the field"))
+                return Iv(0, m) if fits else Iv(0, max(a.hi, m))
             if isinstance(e.op, ast.Add):
                 l = self.iv(e.left, env, parent_add=e)
                 r = self.iv(e.right, env, parent_add=e)
@@ -173,6 +236,7 @@ class CarryAnalysis:
         return None
 
     def run(self):
+        self.sum_stmt = None
         loop = self.find_sum_loop()
         word_hi = (1 << self.word_bits) - 1
         env: Dict[str, Iv] = {self.acc: Iv(0, self.max_words * word_hi)}
